@@ -31,6 +31,7 @@ type Env struct {
 	ranged    *SVal           // the slice the enclosing `for range` loop iterates over
 	params    map[string]SVal // argument bindings when a callee contract is evaluated at a call site
 	depth     int
+	rebinding bool
 }
 
 func (e *Env) child() *Env {
@@ -240,6 +241,15 @@ func (e *Env) evalIdent(name string) (SVal, error) {
 	if e.ctx != nil && e.ctx.Pkg != nil {
 		if o := e.ctx.Pkg.Scope().Lookup(name); o != nil {
 			return e.pkgObject(o)
+		}
+	}
+	if e.vc != nil && e.lookup != nil && !e.rebinding {
+		if alt, ok := e.vc.rebindName(name); ok {
+			e2 := *e
+			e2.rebinding = true
+			if v, err := e2.evalIdent(alt); err == nil {
+				return v, nil
+			}
 		}
 	}
 	return SVal{}, fmt.Errorf("spec expr: unknown identifier %q", name)
